@@ -55,7 +55,8 @@ VARIABLES conf,    \* [v4, v6, cap4, cap6, sec, trunk, rdma, min, max, maxEni]
           absent,  \* pod names the agent's gc verified absent since its last NodeRuntime write
           seen,    \* what the controller learned from the cloud in the current reconcile: <<e, a>> addresses, <<e, 0>> interfaces
           rg,      \* <<e, a>> removed in the cloud behind the controller's back since they were last assigned
-          fresh,   \* interfaces created since the record was last published
+          fresh,   \* interfaces created since the record was last published - kept across a failed record write (the controller
+                   \* remembers that it has to re-sync) until it lists the interfaces again or restarts
           wr,      \* outcome of the record write of the current reconcile: "none" | "ok" | "fail"
           healthy  \* the drain began: no more faults
 
@@ -200,7 +201,9 @@ CrWrite(ok) ==
 (* The reconcile gave up before it looked at the pods (listing the interfaces failed): its record is not judged for obligations. *)
 EarlyReturn == CrWrite(FALSE)
 
-Restart == UNCHANGED vars
+Restart ==
+    /\ fresh' = {}                                                                                   \* the controller's memory is gone
+    /\ UNCHANGED <<conf, cloud, crE, crI, pods, rt, up, given, delp, told, absent, seen, rg, wr, healthy>>
 
 IsNew(y) == ~\E x \in crI : x.e = y.e /\ x.a = y.a /\ x.p = y.p
 TakeOver(y) == y.p \in Pods /\ ((Fam(y.a) = 4 /\ pods[y.p].r4 = y.a) \/ (Fam(y.a) = 6 /\ pods[y.p].r6 = y.a))
@@ -229,7 +232,8 @@ CrUpdate(NE, NI) ==
     /\ G("C03", \A x \in Bound(crI) : (~Kept(x, NI) \/ Marked(x, NE, NI)) => Reclaimable(x))
     \* ---- C08: an interface created since the last published record and still existing is recorded (in use or for deletion)
     /\ G("C08", wr # "fail" => \A e \in fresh : cloud[e].on => HasEni(NE, e))
-    /\ crE' = NE /\ crI' = NI /\ fresh' = {}
+    /\ crE' = NE /\ crI' = NI
+    /\ fresh' = IF wr = "fail" THEN { e \in fresh : cloud[e].on } ELSE {}
     /\ rg' = { r \in rg : \/ r[2] \notin Addrs(r[1])                                                  \* the exemption lasts while the address is gone,
                            \/ (\E y \in Bound(NI) : y.e = r[1] /\ y.a = r[2])                         \* while the record still binds it,
                            \/ (\E u \in Uids : up[u] /\ given[u].e = r[1] /\ r[2] \in {given[u].a4, given[u].a6}) }   \* or a sandbox still holds it
@@ -296,7 +300,8 @@ DeleteEnd(e, effect) ==
 (* The controller listed the instance's interfaces: for the rest of this reconcile it knows them and every address on them. *)
 Describe ==
     /\ seen' = seen \cup { <<e, 0>> : e \in Attached } \cup UNION { { <<e, a>> : a \in Addrs(e) } : e \in Attached }
-    /\ UNCHANGED <<conf, cloud, crE, crI, pods, rt, up, given, delp, told, absent, rg, fresh, wr, healthy>>
+    /\ fresh' = {}
+    /\ UNCHANGED <<conf, cloud, crE, crI, pods, rt, up, given, delp, told, absent, rg, wr, healthy>>
 
 DriftRemove(e, a) ==
     /\ cloud[e].on /\ a \in Addrs(e) /\ a # cloud[e].primary
